@@ -247,7 +247,7 @@ def job_chain_subband(T, n, asc):
 
 
 # ---------------------------------------------------------------- (H) histories on real files
-OPS = ('get_waterfall', 'copy', 'save_load', 'slice', 'dedrift', 'timesel_load')
+OPS = ('get_waterfall', 'copy', 'save_load', 'slice', 'dedrift', 'timesel_load', 'edit_inplace')
 
 
 def apply_history(stg, fr, ops, ext, tmp, tag):
@@ -260,6 +260,10 @@ def apply_history(stg, fr, ops, ext, tmp, tag):
             fn = os.path.join(tmp, f'{tag}_{k}.{ext}')
             (fr.save_fil if ext == 'fil' else fr.save_h5)(fn)
             fr = stg.Frame(waterfall=fn)
+        elif op == 'edit_inplace':
+            # what add_signal / add_noise do: the SAME data array is modified in place (values stay exact in float32)
+            fr.data += 1024.0
+            fr.data[0, 0] -= 7.0
         elif op == 'timesel_load':
             # load through a Waterfall OBJECT carrying a time selection that does not start at integration 0
             if fr.tchans >= 4:
